@@ -274,6 +274,29 @@ def in_propagation_finally(sub, k, raise_k):
   return False
 
 
+def jump_leaves_propagation_finally(sub, k, raise_k):
+  """Does the return/break/continue at node k leave the finally block it runs in during propagation (and so discard
+  the exception)? A break/continue whose loop is itself inside that finally block does not."""
+  node = sub.nodes[k]
+  if isinstance(node, ast.Return):
+    return True
+  # innermost loop of the jump
+  loop = None
+  cur = sub.par.get(k)
+  while cur is not None:
+    n = sub.nodes[cur]
+    if isinstance(n, (ast.FunctionDef, ast.Lambda)):
+      break
+    if isinstance(n, (ast.For, ast.While)):
+      loop = cur
+      break
+    cur = sub.par.get(cur)
+  if loop is None:
+    return True
+  # is that loop inside a finally block that is being run for the propagating exception?
+  return not in_propagation_finally(sub, loop, raise_k)
+
+
 def check_trace(sub, fn, graph, trace, how):
   """trace: list of node ids. Returns (problem or None, edges exercised)."""
   by_k = {getattr(n.ast_node, '_vf_k', None): n for n in graph.index.values()}
@@ -299,8 +322,9 @@ def check_trace(sub, fn, graph, trace, how):
       swallowed = False
       while j < len(trace):
         if in_propagation_finally(sub, trace[j], cur.ast_node._vf_k):
-          if isinstance(sub.nodes[trace[j]], (ast.Return, ast.Break, ast.Continue)):
-            # a jump inside the finally block discards the exception: normal flow resumes at that jump
+          if isinstance(sub.nodes[trace[j]], (ast.Return, ast.Break, ast.Continue)) and \
+              jump_leaves_propagation_finally(sub, trace[j], cur.ast_node._vf_k):
+            # a jump out of the finally block discards the exception: normal flow resumes at that jump
             swallowed = True
             found = j
             break
